@@ -97,7 +97,12 @@ class ContractionCosts:
         """Generate a set of contraction costs from a ``ContractionTree``
         object.
         """
-        size_dict = contraction_tree.size_dict
+        # n.b. indices that are already sliced can't be sliced again
+        size_dict = {
+            ix: d
+            for ix, d in contraction_tree.size_dict.items()
+            if ix not in contraction_tree.sliced_inds
+        }
         contractions = (
             (
                 set(contraction_tree.get_involved(node)),
@@ -140,7 +145,9 @@ class ContractionCosts:
         d = cost.size_dict[ix]
         cost.nslices *= d
 
-        for i in cost._where.pop(ix):
+        # n.b. an index might not be involved in any pairwise contraction,
+        # e.g. if it appears on a single tensor only and is summed immediately
+        for i in cost._where.pop(ix, ()):
             old_involved, old_legs, old_size, old_flops = cost.contractions[i]
 
             # update the actual flops reduction
@@ -186,8 +193,8 @@ class ContractionCosts:
             )
 
         del cost.size_dict[ix]
-        del cost._flop_reductions[ix]
-        del cost._write_reductions[ix]
+        cost._flop_reductions.pop(ix, None)
+        cost._write_reductions.pop(ix, None)
 
         return cost
 
